@@ -88,6 +88,8 @@ def main(prop, tier, seed):
     if prop == 'C01':
         try: wrapper_no_false_alarm(rep)
         except Exception: rep.error('C01 wrapper_no_false_alarm: ' + traceback.format_exc()[-1500:])
+        try: protocol_cache(rep)
+        except Exception: rep.error('C01 protocol_cache: ' + traceback.format_exc()[-1500:])
     if prop == 'C02':
         try: nested_reach(rep)
         except Exception: rep.error('C02 nested_reach: ' + traceback.format_exc()[-1500:])
@@ -132,6 +134,71 @@ C01_SIGS = [[('pk', False, False), ('vk', True, False)], [('ko', False, False), 
 def _c01_wrap_worker(sig):
     from pyvc import wrapcheck
     return wrapcheck.wrapper_obligations(sig, True)
+PROTO_SRC = """
+import sys
+from typing import Union
+from beartype import beartype
+from beartype.door import is_bearable, die_if_unbearable
+from beartype.typing import Protocol
+bad = []
+def world():
+    class P(Protocol):
+        def meth(self) -> int: ...
+    class Impl(P):
+        def meth(self) -> int: return 1
+        def extra(self) -> int: return 0
+    class Sub(Impl): pass
+    class Duck:
+        def meth(self) -> int: return 2
+    return P, Impl, Sub, Duck
+# histories: a conforming object (structurally a P) is first checked against a class that merely INHERITS from P
+for label, first in (('Impl first', lambda P, Impl, Sub, Duck: is_bearable(Duck(), Impl)), ('Sub first', lambda P, Impl, Sub, Duck: is_bearable(Duck(), Sub)),
+                     ('isinstance(Impl) first', lambda P, Impl, Sub, Duck: isinstance(Duck(), Impl)), ('nothing first', lambda *a: None)):
+    P, Impl, Sub, Duck = world(); first(P, Impl, Sub, Duck)
+    if is_bearable(Duck(), P) is not True: bad.append(f'{label}: is_bearable(Duck(), P) is False although Duck defines every member of P')
+    if is_bearable(Impl(), P) is not True or is_bearable(Sub(), Impl) is not True: bad.append(f'{label}: an instance of a subclass is rejected')
+for hint_of, label in ((lambda P, Impl: Union[Impl, P], 'Union[Impl, P]'), (lambda P, Impl: list[Union[Impl, P]], 'list[Union[Impl, P]]'), (lambda P, Impl: Union[P, Impl], 'Union[P, Impl]')):
+    P, Impl, Sub, Duck = world(); h = hint_of(P, Impl); o = [Duck()] if label.startswith('list') else Duck()
+    if is_bearable(o, h) is not True: bad.append(f'{label}: conforming object rejected')
+    @beartype
+    def f(x: h) -> h: return x
+    try: f(o)
+    except Exception as e: bad.append(f'{label}: decorated call raised {type(e).__name__}')
+print(bad[:3]); sys.exit(1 if bad else 0)
+"""
+def protocol_cache(rep):
+    """C01 through beartype.typing.Protocol: isinstance() against a caching protocol is memoised per class in `_abc_inst_check_cache`.  Ownership
+    obligation (function mode on the real metaclass __new__): on EVERY returning path the new class owns a FRESH empty table - a table shared
+    with a base class would serve the base's or a sibling's verdicts.  (b) history scenarios in a fresh interpreter."""
+    import z3
+    from pyvc import funcmode, model as M, symx, REPO
+    from pyvc.symx import Exec, St, VObj, VPy
+    import beartype.typing._typingpep544 as mod
+    fobj, node, _ = funcmode.load('beartype/typing/_typingpep544.py', '_CachingProtocolMeta.__new__')
+    uni = M.Universe(); CLS = z3.Const('new_cls', M.Obj)
+    def m_new(ex, s, f, a, kw, w): return [(s.ev('alloc_cls'), VObj(CLS))]
+    def m_fresh(tag): return lambda ex, s, f, a, kw, w: [(s, VObj(M.fresh(tag)))]
+    cm = {'super.__new__': m_new, '.get': m_fresh('got'), mod.runtime_checkable: m_fresh('rc')}
+    ex = Exec(uni, dict(mod.__dict__), call_model=cm, name='proto_new'); ex.fields_mode = True; ex.method_names = {'get', '__new__'}; ex.quantify_allany = True
+    args = tuple(VObj(z3.Const(n, M.Obj)) for n in ('mcls', 'name', 'bases', 'namespace'))
+    try: outs = ex.run_function(node, St(), args, {}, fobj)
+    except symx.Unsupported as e: rep.error(f'C01.protocol_cache: unsupported: {e}'); outs = []
+    for i, (s_, v) in enumerate(outs):
+        t = z3.simplify(z3.Select(ex.field(s_, '_abc_inst_check_cache'), CLS)); allocs = {f'dictref_{e[1]}' for e in s_.events if e[0] == 'alloc_dict' and e[2] == 0}
+        ok = isinstance(v, VObj) and v.t.eq(CLS) and str(t) in allocs
+        rep.add(f'C01.protocol_cache.new.post.fresh_table_per_class.path{i}', 'proved' if ok else 'refuted', backend='structural',
+                where=f'_CachingProtocolMeta.__new__ returns the new class with _abc_inst_check_cache = ' + ('a dictionary allocated empty in this very call' if ok else f'{t} (not a table created for this class: inherited / shared verdicts)'))
+    if not outs: rep.error('C01.protocol_cache: no returning path')
+    import subprocess
+    env = dict(os.environ); env['PYTHONPATH'] = REPO
+    p = subprocess.run([sys.executable, '-c', PROTO_SRC], capture_output=True, text=True, timeout=120, env=env, cwd='/')
+    if p.returncode not in (0, 1) or (p.returncode == 1 and not p.stdout.strip().startswith('[')): rep.error('C01 protocol_cache harness: ' + (p.stdout + p.stderr)[-600:]); return
+    if p.returncode == 1:
+        rep.add('C01.protocol_cache.history.conforming_object_rejected', 'refuted', backend='runtime-contract', bounded=True, where=p.stdout.strip()[-400:], solver_output='bounded run-time contract in a fresh interpreter (not a proof)',
+                replay=dict(reproduced=True, detail=p.stdout.strip()[-300:]), replay_script=f"import subprocess\nenv = dict(os.environ); env['PYTHONPATH'] = os.environ.get('VERIF_REPO', {REPO!r})\np = subprocess.run([sys.executable, '-c', {PROTO_SRC!r}], env=env, cwd='/')\nsys.exit(p.returncode)\n")
+    rep.bounded.append(dict(kind='beartype.typing.Protocol: conforming objects after / next to checks against inheriting classes (bounded stand-in, NOT counted as proved)', scenarios=7, failing=int(p.returncode == 1)))
+    rep.functions.append('beartype/typing/_typingpep544.py:_CachingProtocolMeta.__new__ (mode F: the per-class isinstance cache is a fresh table)')
+
 def wrapper_no_false_alarm(rep):
     """C01 through a decorated callable (captured wrapper text, arbitrary args/kwargs): a parameter violation is only ever raised about a value
     Python binds to an ANNOTATED parameter and that does not conform to its hint - so a call whose passed annotated values all conform is
